@@ -297,7 +297,7 @@ def random_(ctx, spec):
                 reorder_to=1, declare=7,
                 undeclare_subset=6 if kind == 'bdd' else 0, conflict=3,
                 redeclare=3, undeclare_bad=3 if kind == 'bdd' else 0,
-                canon=2)
+                canon=2, clone=2 if kind == 'bdd' else 0)
     for k in range(spec['steps']):
         names_before = set(w.raw.vars)
         held = bool(w.pool)
